@@ -339,6 +339,9 @@ func genC02(c *Ctx) {
 		}
 		guard("Decomposer", func() { c02Decomp(c, po, e) })
 		guard("History", func() { c02History(c, po, e) })
+		guard("OverAllocated", func() { c02OverAllocated(c, po, e) })
+		guard("RescaleChain", func() { c02RescaleChain(c, po, e) })
+		guard("CraftedHPS", func() { c02Crafted(c, po, e) })
 		if ringP != nil {
 			guard("SmallNorm", func() { c02Small(c, po, N, ringQ, ringP, ch) })
 		}
@@ -361,6 +364,7 @@ func genC02(c *Ctx) {
 	top("KeySwitch", func() { c02KeySwitchNoP(c) })
 	top("DigitCount", func() { c02DigitCount(c) })
 	top("GadgetVector", func() { c02Gadget(c, po, pool) })
+	top("KeySwitchBigPrimes", func() { c02KeySwitchBigPrimes(c) })
 	_ = r
 }
 
